@@ -105,6 +105,16 @@ def step (s : St) (toks : List String) : St × String :=
     match i.toNat?, fee.toInt? with
     | some i, some fee => if i ≥ 5 || i ≥ s.w.accts.length then (s, "bad-op") else runTx s (Tx.regPRep i (8 + i) fee)
     | _, _ => (s, "bad-op")
+  | ["slash", k, rate, applied] =>
+    -- one block setting the slashing rate, one block with a double-sign penalty of P-Rep k (0 or 1)
+    if !s.ready then (s, "bad-op") else
+    match k.toNat?, rate.toInt? with
+    | some k, some rate =>
+      if k ≥ 2 || rate < 1 || rate ≥ 10000 then (s, "bad-op") else
+      let w1 := (block s.w []).1
+      let w2 := penaltyBlock w1 k rate (if k == 0 then [5, 7, 6] else [6, 5]) (applied == "1")
+      ({ s with w := w2 }, digest w2 [true])
+    | _, _ => (s, "bad-op")
   | ["xfer", i, j, v] =>
     if !s.ready then (s, "bad-op") else
     match i.toNat?, j.toNat?, v.toInt? with
